@@ -24,9 +24,9 @@ BUDGET_S = {"quick": 200, "thorough": 1500}
 EPS = 2.0 ** -52
 
 
-def _dask(a, chunks):
+def _dask(a, chunks, layout="C"):
     import dask.array as da
-    return da.from_array(a, chunks=tuple(tuple(c) for c in chunks))
+    return da.from_array(S.apply_layout(a, layout), chunks=tuple(tuple(c) for c in chunks))
 
 
 def _sched(case):
@@ -81,8 +81,10 @@ def body_stats(case, ctx):
     kw = {"nodata_values": nodata, "stats_funcs": list(names)}
     if zone_ids is not None:
         kw["zone_ids"] = list(zone_ids)
-    zd = xr.DataArray(_dask(zn, case["zchunks"]), dims=["y", "x"])
-    vd = xr.DataArray(_dask(vn, case["vchunks"]), dims=["y", "x"])
+    zd = xr.DataArray(_dask(zn, case["zchunks"], case.get("zlayout", "C")), dims=["y", "x"])
+    vd = xr.DataArray(_dask(vn, case["vchunks"], case.get("vlayout", "C")), dims=["y", "x"])
+    if case.get("zlayout", "C") != case.get("vlayout", "C"):
+        r.label("mixed_memory_layouts")
     res = stats(zd, vd, **kw)
     if not isinstance(res, dd.DataFrame):
         return r.fail("stats.not_lazy", "result type %r is not a dask DataFrame" % type(res))
@@ -169,7 +171,7 @@ def body_ct(case, ctx):
         kw["zone_ids"] = list(zone_ids)
     if cat_ids is not None:
         kw["cat_ids"] = list(cat_ids)
-    zd = xr.DataArray(_dask(zn, case["zchunks"]), dims=["y", "x"])
+    zd = xr.DataArray(_dask(zn, case["zchunks"], case.get("zlayout", "C")), dims=["y", "x"])
     if three:
         vch = [[len(labels)]] + [list(c) for c in case["vchunks"]]
         if case.get("layer_chunked") and len(labels) > 1:
@@ -177,7 +179,7 @@ def body_ct(case, ctx):
         vd = xr.DataArray(_dask(vn, vch), dims=["cat", "y", "x"], coords={"cat": labels})
         vnp = xr.DataArray(vn, dims=["cat", "y", "x"], coords={"cat": labels})
     else:
-        vd = xr.DataArray(_dask(vn, case["vchunks"]), dims=["y", "x"])
+        vd = xr.DataArray(_dask(vn, case["vchunks"], case.get("vlayout", "C")), dims=["y", "x"])
         vnp = xr.DataArray(vn, dims=["y", "x"])
     res = crosstab(zd, vd, **kw)
     if not isinstance(res, dd.DataFrame):
@@ -235,7 +237,7 @@ def stats_cases(draw, max_side):
     vdtype = draw(st.sampled_from(["float64", "float64", "float32", "int32", "int64"]))
     if vdtype.startswith("float"):
         pal = draw(st.sampled_from([S.PAL_HALVES, S.PAL_SIGNED, [0.0, 1.0, 2.0, 50.0, -30.5, 7.25], S.PAL_NONF32[:6] + [999.9] if vdtype == "float64" else S.PAL_HALVES]))
-        vdata = draw(S.grid(h, w, pal, specials=["nan", "inf"]))
+        vdata = draw(S.grid(h, w, pal, specials=["nan", "inf", "-inf"]))
     else:
         vdata = draw(S.grid(h, w, [0, 1, 2, 3, 7, 50, 100, -1, -30]))
     zpres = _present(zones)
@@ -248,7 +250,8 @@ def stats_cases(draw, max_side):
     zc, vc = draw(chunk_pair(h, w))
     return {"sub": "stats", "zones": zones, "values": {"dtype": vdtype, "data": vdata}, "nodata": nodata, "zone_ids": zone_ids,
             "stats": draw(st.lists(st.sampled_from(Z.STAT_NAMES), min_size=1, max_size=7, unique=True)),
-            "zchunks": zc, "vchunks": vc, "scheduler": draw(st.sampled_from(SCHEDS))}
+            "zchunks": zc, "vchunks": vc, "scheduler": draw(st.sampled_from(SCHEDS)),
+            "zlayout": draw(st.sampled_from(["C", "C", "F"])), "vlayout": draw(st.sampled_from(["C", "C", "F"]))}
 
 
 @st.composite
@@ -272,7 +275,7 @@ def ct_cases(draw, max_side):
         vdtype = draw(st.sampled_from(["int32", "int64"])) if ckind == "int" else draw(st.sampled_from(["float64", "float32"]))
         nc = draw(st.integers(1, 5))
         calph = draw(st.permutations(CAT_ALPH[ckind]))[:nc]
-        values = {"dtype": vdtype, "data": draw(S.grid(h, w, calph, specials=["nan", "inf"] if ckind == "float" else []))}
+        values = {"dtype": vdtype, "data": draw(S.grid(h, w, calph, specials=["nan", "inf", "-inf"] if ckind == "float" else []))}
         case["agg"] = draw(st.sampled_from(["count", "percentage"]))
         cpres, extra_c = _present(values), ([42] if ckind == "int" else [42.5])
     nodata = draw(st.sampled_from([None, None, 0, 99]))
@@ -286,7 +289,8 @@ def ct_cases(draw, max_side):
         cat_ids = draw(S.id_list(cpres, extra=extra_c))
     zc, vc = draw(chunk_pair(h, w))
     case.update({"zones": zones, "values": values, "nodata": nodata, "zone_ids": zone_ids, "cat_ids": cat_ids,
-                 "zchunks": zc, "vchunks": vc, "scheduler": draw(st.sampled_from(SCHEDS))})
+                 "zchunks": zc, "vchunks": vc, "scheduler": draw(st.sampled_from(SCHEDS)),
+                 "zlayout": draw(st.sampled_from(["C", "C", "F"])), "vlayout": draw(st.sampled_from(["C", "C", "F"]))})
     return case
 
 
